@@ -446,6 +446,11 @@ func evalGen(r *rand.Rand, tier string, n int) []*wire.Case {
 		"let g = 3; fn rd() { return g; } { print(rd()); let g = 9; print(g); print(rd()); } print(g);", "fn f() { return 1; } { print(f()); fn f() { return 2; } print(f()); } print(f());",
 		"let i0 = 7; for let k = 0; k < 2; k = k + 1 { print(i0); let i0 = k; print(i0); } print(i0);", "let w = 4; let n = 0; while n < 2 { n = n + 1; print(w); let w = n * 10; print(w); }",
 		"let a = 1; { { print(a); } let a = 2; { print(a); let a = 3; print(a); } print(a); } print(a);", "let s = 1; switch s { case 1: print(s); let s = 8; print(s); } print(s);")
+	// sort is stable: elements the comparison does not tell apart keep their order — also beyond a dozen elements
+	add("d-sort-stable", "let m = [12, 10, 13, 11, 20, 21, 23, 22, 32, 33, 30, 31, 34]; let s = sort(m, fn (a, b) { return a / 10 < b / 10; }); any(s, fn (x) { print(x); return 0; }); print(first(s));",
+		"let m = [43, 10, 13, 41, 11, 12, 22, 40, 20, 23, 21, 33, 31, 30, 32, 42]; let s = sort(m, fn (a, b) { return a / 10 > b / 10; }); any(s, fn (x) { print(x); return 0; });",
+		"let m = [5, 3, 9, 1, 7, 3, 5, 9, 1, 7, 2, 8, 4, 6, 0, 2, 8, 4, 6, 0]; let s = sort(m, fn (a, b) { return a / 2 < b / 2; }); any(s, fn (x) { print(x); return 0; }); print(len(s));",
+		"let m = [3, 1, 2, 1, 3, 2, 1, 2, 3, 1, 2, 3]; any(sort(m, fn (a, b) { return 0; }), fn (x) { print(x); return 0; });")
 	add("d-compare", "print(1 < 2); print(2 <= 2); print(3 > 4); print(1 == 1.0); print(1 != 2); print(1 <> 1); print(2 && 0); print(0 || 0.0); print(0 || \"s\" == 1);")
 	add("d-errors", "print(1 / 0);", "print(1.0 / 0);", "print(\"a\" + 1);", "print(nope);", "fn f(a) { return a; } print(f());", "let a = 1; let a = 2;", "print(5 / (2 - 2));", "print(type(1)); print(type(\"s\")); print(type(null)); print(type([1])); print(type(print)); print(type(fn(){ return 1; }));")
 	add("d-fn-args", "let a = 1; let b = 2; fn second(b, a) { return a; } print(second(a, b)); print(second(b, a));",
